@@ -18,10 +18,12 @@ the documented rule as evaluated by TLC; the model's implementation side and its
 
 Second part (source equivalence): for every flag of main.define_options and every key of
 config_parser.ini_config_types the same setting is supplied through each source that accepts it
-and the resulting Options snapshots are compared pairwise (real vs real).
+and the resulting Options are compared (real vs real); for settings with a witness program the
+diagnostics are compared too.
 """
 from __future__ import annotations
 
+import contextlib
 import io
 import itertools
 import json
@@ -44,8 +46,13 @@ MODS = ([x for x in LETTERS] + [".".join(t) for t in itertools.product(LETTERS, 
         + [".".join(t) for t in itertools.product(LETTERS, repeat=3)])
 UNSET = "-"
 FORMATS = ("ini", "toml", "setupcfg", "discover")
-# the reference spelling used when a failing configuration is minimised
 FILLERS = ("warn_unused_ignores", "warn_unreachable")
+# options whose final value is computed from another option by process_options (documented couplings);
+# they cannot be used as the observed option of a precedence replay
+COUPLED = {"disable_bytearray_promotion", "disable_memoryview_promotion",   # := strict_bytes
+           "show_column_numbers",                                            # implied by show_error_end
+           "cache_fine_grained",                                             # implied by logical_deps
+           "local_partial_types"}                                            # implied by cache_fine_grained
 
 
 # =========================================================================== option tables
@@ -55,11 +62,12 @@ def _parser() -> Any:
 
 
 def _inversions(dest: str, template: Any) -> list[str]:
-    """Config-file names that mean `not dest` (docs: "Inverting option values")."""
+    """Config-file names that mean `not dest`, as documented (config_file.rst "Inverting option
+    values": add no_, or swap the prefix disallow <-> allow)."""
     res = []
     if not dest.startswith("no_"):
         res.append("no_" + dest)
-    for a, b in (("disallow_", "allow_"), ("allow_", "disallow_"), ("show_", "hide_"), ("hide_", "show_")):
+    for a, b in (("disallow_", "allow_"), ("allow_", "disallow_")):
         if dest.startswith(a):
             cand = b + dest[len(a):]
             if not hasattr(template, cand):
@@ -68,7 +76,7 @@ def _inversions(dest: str, template: Any) -> list[str]:
 
 
 def build_optmaps() -> dict[str, Any]:
-    """Refinement maps model value -> real spelling per source, read off the real tables."""
+    """Refinement maps: model value -> real spelling per source, read off the real tables."""
     import argparse
     from mypy.options import PER_MODULE_OPTIONS, Options
 
@@ -83,38 +91,39 @@ def build_optmaps() -> dict[str, Any]:
                 if s.startswith("--"):
                     flags.setdefault(a.dest, {}).setdefault(a.const, []).append(s)
     maps: dict[str, Any] = {}
-    # every option that may appear in a [mypy-...] section / inline comment and is boolean
-    for dest in sorted(PER_MODULE_OPTIONS):
-        dv = getattr(tmpl, dest, None)
-        if not isinstance(dv, bool) or dest == "mypyc":
-            continue
+
+    def boolmap(dest: str, per_module: bool) -> None:
+        dv = getattr(tmpl, dest)
         real = {"p": (not dv), "q": dv, "d": dv}
-        cfgsp = {}
-        for ch in "pq":
-            v = real[ch]
-            cfgsp[ch] = [(dest, v)] + [(k, not v) for k in _inversions(dest, tmpl)]
+        cfgsp = {ch: [(dest, real[ch])] + [(k, not real[ch]) for k in _inversions(dest, tmpl)] for ch in "pq"}
         cmd = {ch: [[f] for f in flags.get(dest, {}).get(real[ch], [])] for ch in "pq"}
-        maps[dest] = {"dest": dest, "kind": "bool", "per_module": True, "real": real, "cfg": cfgsp,
+        maps[dest] = {"dest": dest, "kind": "bool", "per_module": per_module, "real": real, "cfg": cfgsp,
                       "cmd": cmd, "has_cmd": all(cmd[ch] for ch in "pq")}
-    # the enum-like per-module option
+    for dest in sorted(PER_MODULE_OPTIONS):
+        if isinstance(getattr(tmpl, dest, None), bool) and dest not in COUPLED and dest != "mypyc":
+            boolmap(dest, True)
     real = {"p": "skip", "q": "silent", "r": "error", "d": "normal"}
     maps["follow_imports"] = {
         "dest": "follow_imports", "kind": "enum", "per_module": True, "real": real,
         "cfg": {ch: [("follow_imports", real[ch])] for ch in "pqr"},
         "cmd": {ch: [["--follow-imports=" + real[ch]], ["--follow-imports", real[ch]]] for ch in "pqr"},
         "has_cmd": True}
-    # global-only booleans (command line vs [mypy]); both polarities must be expressible somewhere
-    for dest in sorted(flags):
-        if dest in maps or dest in PER_MODULE_OPTIONS:
+    # global-only valued options: two conflicting values each (command line vs [mypy])
+    valued = {"platform": ("--platform", "win32", "darwin"), "cache_dir": ("--cache-dir", "/tmp/c17-cd-p", "/tmp/c17-cd-q"),
+              "custom_typing_module": ("--custom-typing-module", "typing_p", "typing_q"),
+              "junit_xml": ("--junit-xml", "/tmp/c17-p.xml", "/tmp/c17-q.xml"),
+              "junit_format": ("--junit-format", "per_file", "global"), "num_workers": ("--num-workers", 2, 3),
+              "sqlite_num_shards": ("--sqlite-num-shards", 4, 8), "quickstart_file": ("--quickstart-file", "/tmp/c17-qs-p", "/tmp/c17-qs-q")}
+    for dest, (flag, pv, qv) in valued.items():
+        real = {"p": pv, "q": qv, "d": getattr(tmpl, dest)}
+        maps[dest] = {"dest": dest, "kind": "valued", "per_module": False, "real": real,
+                      "cfg": {ch: [(dest, real[ch])] for ch in "pq"},
+                      "cmd": {ch: [[flag, str(real[ch])], ["%s=%s" % (flag, real[ch])]] for ch in "pq"}, "has_cmd": True}
+    for dest in sorted(flags):      # global-only booleans: command line vs [mypy]
+        if dest in maps or dest in PER_MODULE_OPTIONS or dest in COUPLED:
             continue
-        dv = getattr(tmpl, dest, None)
-        if not isinstance(dv, bool):
-            continue
-        real = {"p": (not dv), "q": dv, "d": dv}
-        cfgsp = {ch: [(dest, real[ch])] + [(k, not real[ch]) for k in _inversions(dest, tmpl)] for ch in "pq"}
-        cmd = {ch: [[f] for f in flags.get(dest, {}).get(real[ch], [])] for ch in "pq"}
-        maps[dest] = {"dest": dest, "kind": "bool", "per_module": False, "real": real, "cfg": cfgsp,
-                      "cmd": cmd, "has_cmd": all(cmd[ch] for ch in "pq")}
+        if isinstance(getattr(tmpl, dest, None), bool):
+            boolmap(dest, False)
     return maps
 
 
@@ -131,26 +140,26 @@ def ini_value(v: Any, rnd: random.Random) -> str:
     return str(v)
 
 
-def toml_value(v: Any, rnd: random.Random) -> str:
+def toml_value(v: Any, rnd: random.Random, list_as_string: bool = False) -> str:
     if isinstance(v, bool):
         return "true" if v else "false"
     if isinstance(v, int):
         return str(v)
     if isinstance(v, (list, tuple)):
-        if rnd.random() < 0.5:
+        if list_as_string:
             return json.dumps(", ".join(str(x) for x in v))
         return "[" + ", ".join(json.dumps(str(x)) for x in v) + "]"
     return json.dumps(str(v))
 
 
 def render_config(fmt: str, glob_kv: list[tuple[str, Any]], sections: list[tuple[list[str], list[tuple[str, Any]]]],
-                  rnd: random.Random) -> str:
+                  rnd: random.Random, list_as_string: bool = False) -> str:
     """sections: [(patterns sharing one header, key/values)] in file order."""
     out: list[str] = []
     if fmt == "toml":
         out.append("[build-system]\nrequires = []\n\n[tool.mypy]")
         for k, v in glob_kv:
-            out.append("%s = %s" % (k, toml_value(v, rnd)))
+            out.append("%s = %s" % (k, toml_value(v, rnd, list_as_string)))
         for pats, kv in sections:
             out.append("\n[[tool.mypy.overrides]]")
             if len(pats) == 1 and rnd.random() < 0.7:
@@ -158,7 +167,7 @@ def render_config(fmt: str, glob_kv: list[tuple[str, Any]], sections: list[tuple
             else:
                 out.append("module = [%s]" % ", ".join(json.dumps(p) for p in pats))
             for k, v in kv:
-                out.append("%s = %s" % (k, toml_value(v, rnd)))
+                out.append("%s = %s" % (k, toml_value(v, rnd, list_as_string)))
     else:
         if fmt == "setupcfg":
             out.append("[metadata]\nname = x\n")
@@ -218,8 +227,18 @@ class Plan:
         return (self.cmd + cf if self.cmd_first else cf + self.cmd) + ["-c", "pass"]
 
 
+class RawPlan:
+    """A config text + argv given directly (source equivalence runs)."""
+
+    def __init__(self, fmt: str, text: str, argv_tail: list[str]) -> None:
+        self.fmt, self.text, self.tail = fmt, text, argv_tail
+
+    def argv(self, path: str | None) -> list[str]:
+        return (["--config-file", path] if path is not None else []) + self.tail
+
+
 # =========================================================================== real code under test
-def real_options(plan: Plan, wdir: str) -> tuple[Any, str]:
+def real_options(plan: Any, wdir: str, chdir: bool = False) -> tuple[Any, str, Any]:
     """process_options + the error-code step of build.build, as the real front end does them."""
     from mypy.main import process_options
 
@@ -230,24 +249,23 @@ def real_options(plan: Plan, wdir: str) -> tuple[Any, str]:
             os.unlink(p)
     with open(path, "w") as f:
         f.write(plan.text)
-    so, se = io.StringIO(), io.StringIO()
+    so, se, pr = io.StringIO(), io.StringIO(), io.StringIO()
     cwd = os.getcwd()
     try:
-        if plan.fmt == "discover":
+        if plan.fmt == "discover" or chdir:
             os.chdir(wdir)
-            argv = plan.argv(None)
-        else:
-            argv = plan.argv(path)
+        argv = plan.argv(None if plan.fmt == "discover" else path)
         try:
-            _, options = process_options(argv, stdout=so, stderr=se)
+            with contextlib.redirect_stdout(pr):   # deprecation notes are print()ed, not complaints
+                targets, options = process_options(argv, stdout=so, stderr=se)
         except SystemExit as e:
-            return None, "SystemExit(%s) %s %s" % (e.code, so.getvalue()[-300:], se.getvalue()[-300:])
+            return None, "SystemExit(%s) %s %s" % (e.code, so.getvalue()[-300:], se.getvalue()[-300:]), None
     finally:
         os.chdir(cwd)
     msgs: list[str] = []
     options.process_error_codes(error_callback=msgs.append)
     complaint = (so.getvalue() + se.getvalue() + "".join(msgs)).strip()
-    return options, complaint
+    return options, complaint, targets
 
 
 def final_options(options: Any, module: str, comment: str) -> tuple[Any, list[Any]]:
@@ -259,29 +277,34 @@ def final_options(options: Any, module: str, comment: str) -> tuple[Any, list[An
     errs: list[Any] = []
     if comment:
         flags = get_mypy_comments(comment + "\nx = 1\n")
-        if flags:
+        if not flags:
+            errs = [(0, "comment not recognised by get_mypy_comments")]
+        else:
             changes, errs = parse_mypy_comments(flags, om)
             om = om.apply_changes(changes)
     return om, errs
 
 
-def replay_plan(plan: Plan, wdir: str, inline_seq: list[str]) -> dict[str, Any]:
-    """Push one configuration through the real code; compare with the documented value (doc) and the
-    model's implementation side (imp) for every module x inline choice."""
+def replay_plan(plan: Plan, wdir: str, inline_seq: list[str], idx: int) -> dict[str, Any]:
+    """Push one configuration through the real code; compare the value each module is checked with
+    against the documented value (doc) and the model's implementation side (imp).  Without an inline
+    comment all 39 modules are compared; with each inline choice a rotating subset of 6."""
     rec, om = plan.rec, plan.om
     dest, real = om["dest"], om["real"]
     res: dict[str, Any] = {"viol": [], "drift": [], "evals": 0, "complaint": ""}
-    options, complaint = real_options(plan, wdir)
+    options, complaint, _ = real_options(plan, wdir)
     if options is None:
         res["viol"].append({"m": None, "i": None, "why": "rejected: " + complaint})
         return res
     res["complaint"] = complaint
-    # projection of the real state on the specification's variables
     if getattr(options, dest) != real[rec["b"]]:
         res["drift"].append("base: real %r model %r" % (getattr(options, dest), real[rec["b"]]))
-    rows = []
+    n = len(MODS)
+    with_inline = {(idx * 5 + k * 7) % n for k in range(6)}
     for mi, m in enumerate(MODS):
         for j, inl in enumerate(inline_seq):
+            if inl != UNSET and mi not in with_inline:
+                continue
             fin, errs = final_options(options, m, plan.inline[inl])
             got = getattr(fin, dest)
             res["evals"] += 1
@@ -292,10 +315,10 @@ def replay_plan(plan: Plan, wdir: str, inline_seq: list[str]) -> dict[str, Any]:
                 res["viol"].append({"m": m, "i": inl, "got": got, "doc": doc, "imp": imp})
             elif got != imp:
                 res["drift"].append("module %s inline %s: real %r = doc, model impl %r" % (m, inl, got, imp))
-        rows.append(m)
+    # projection of the real state on the specification's variables
     cache = getattr(options, "_per_module_cache") or {}
-    got_cache = [[k, getattr(v, dest)] for k, v in cache.items()]
-    want_cache = [[k, real[v]] for k, v in rec["k"]]
+    got_cache = [[k, getattr(val, dest)] for k, val in cache.items()]
+    want_cache = [[k, real[val]] for k, val in rec["k"]]
     if got_cache != want_cache:
         res["drift"].append("_per_module_cache: real %r model %r" % (got_cache, want_cache))
     got_globs = [k for k, _ in getattr(options, "_glob_options")]
@@ -317,8 +340,7 @@ def _wreplay(task: tuple[list[Any], list[str]]) -> list[Any]:
     items, inline_seq = task
     out = []
     for idx, rec, om, fmt, salt in items:
-        plan = Plan(rec, om, fmt, salt)
-        r = replay_plan(plan, _W["dir"], inline_seq)
+        r = replay_plan(Plan(rec, om, fmt, salt), _W["dir"], inline_seq, idx)
         if r["viol"] or r["drift"] or r["complaint"]:
             out.append((idx, om["dest"], fmt, salt, r))
         else:
@@ -335,41 +357,63 @@ def canon(secs: list[list[str]], g: str, c: str, i: str, m: str | None) -> str:
     """Value-renaming-invariant name of a configuration (first value seen -> x, second -> y ...)."""
     names: dict[str, str] = {}
 
-    def nm(v: str) -> str:
-        if v == UNSET:
+    def nm(val: str) -> str:
+        if val == UNSET:
             return UNSET
-        if v not in names:
-            names[v] = "xyz"[len(names)]
-        return names[v]
-    s = ",".join("%s=%s" % (p, nm(v)) for p, v in secs)
+        if val not in names:
+            names[val] = "xyz"[len(names)]
+        return names[val]
+    s = ",".join("%s=%s" % (p, nm(val)) for p, val in secs)
     return "s=[%s];g=%s;c=%s;i=%s|m=%s" % (s, nm(g), nm(c), nm(i), m)
 
 
 class Minimiser:
-    def __init__(self, index: dict[str, dict[str, Any]], wdir: str, inline_seq: list[str]) -> None:
-        self.index, self.wdir, self.inline_seq = index, wdir, inline_seq
+    """Delta-minimises a (configuration, module) whose real value differs from the documented one: drops
+    sections / unsets sources one at a time while the disagreement persists.  Every candidate is itself a
+    configuration TLC emitted (looked up in `index`), so the oracle stays the specification's."""
 
-    def check(self, secs: list[list[str]], g: str, c: str, i: str, m: str, om: dict[str, Any]) -> tuple[bool, Any] | None:
+    def __init__(self, index: dict[str, dict[str, Any]], wdir: str, ref: dict[str, Any]) -> None:
+        self.index, self.wdir, self.ref = index, wdir, ref
+        self.confirmed: dict[str, Any] = {}
+
+    def check(self, secs: list[list[str]], g: str, c: str, i: str, m: str, om: dict[str, Any] | None) -> Any:
+        """om=None: decide from the specification's own tables (documented value vs transcribed implementation);
+        used when the real code has been seen to agree with the transcription.  Otherwise run the real code."""
         rec = self.index.get(rec_key(secs, g, c))
         if rec is None:
             return None
+        inline_seq = [UNSET, "p", "q", "r"][:len(rec["doc"])]
+        j, mi = inline_seq.index(i), MODS.index(m)
+        if om is None:
+            return (rec["doc"][j][mi] != rec["imp"][j][mi], {})
+        if (c != UNSET and not om["cmd"].get(c)) or (i not in om["cfg"] and i != UNSET):
+            return None
         plan = Plan(rec, om, "ini", 0, plain=True)
-        options, complaint = real_options(plan, self.wdir)
+        options, complaint, _ = real_options(plan, self.wdir)
         if options is None:
             return None
-        j, mi = self.inline_seq.index(i), MODS.index(m)
         fin, errs = final_options(options, m, plan.inline[i])
         got = getattr(fin, om["dest"])
         doc, imp = om["real"][rec["doc"][j][mi]], om["real"][rec["imp"][j][mi]]
         return (got != doc, {"got": got, "doc": doc, "imp": imp, "config": plan.text, "argv": plan.argv("mypy.ini"),
-                             "inline": plan.inline[i]})
+                             "inline": plan.inline[i], "option_in_minimal_configuration": om["dest"]})
 
-    def minimise(self, rec: dict[str, Any], i: str, m: str, om: dict[str, Any]) -> tuple[str, dict[str, Any]]:
+    def minimise(self, rec: dict[str, Any], i: str, m: str, om: dict[str, Any], design: bool) -> tuple[str, dict[str, Any]]:
         secs, g, c = [list(x) for x in rec["s"]], rec["g"], rec["c"]
-        first = self.check(secs, g, c, i, m, om)
+        if design:
+            use: Any = None
+            tag = "*"
+            first = self.check(secs, g, c, i, m, None)
+        else:
+            # under the reference option (follow_imports: all model values map to distinct real values)
+            # when the disagreement is not specific to the option it was seen with
+            use, tag = self.ref, "*"
+            first = self.check(secs, g, c, i, m, use)
+            if first is None or not first[0]:
+                use, tag = om, om["dest"]
+                first = self.check(secs, g, c, i, m, use)
         if first is None or not first[0]:
-            # does not reproduce in the plain spelling: spelling-specific; keep the full configuration
-            return "", {}
+            return "", {}      # specific to the spelling / file format: caller keeps the full case
         detail = first[1]
         changed = True
         while changed:
@@ -387,13 +431,21 @@ class Minimiser:
             if i != UNSET:
                 cands.append((secs, g, c, UNSET))
             for s2, g2, c2, i2 in cands:
-                r = self.check(s2, g2, c2, i2, m, om)
+                r = self.check(s2, g2, c2, i2, m, use)
                 if r is not None and r[0]:
                     secs, g, c, i, detail = s2, g2, c2, i2, r[1]
                     changed = True
                     break
-        kind = "design" if detail["got"] == detail["imp"] else "code:" + om["dest"]
-        return kind + ":" + canon(secs, g, c, i, m), detail
+        name = canon(secs, g, c, i, m)
+        if design:
+            # the minimal configuration is confirmed against the real code (once per configuration)
+            if name not in self.confirmed:
+                self.confirmed[name] = self.check(secs, g, c, i, m, self.ref)
+            r = self.confirmed[name]
+            if r is None or not r[0] or r[1]["got"] != r[1]["imp"]:
+                return "", {}
+            detail = r[1]
+        return ("design:" if design else "code:%s:" % tag) + name, detail
 
 
 # =========================================================================== real builds
@@ -423,8 +475,9 @@ def write_tree(root: str, comments: dict[str, str]) -> None:
         p = os.path.join(root, mod_path(m))
         os.makedirs(os.path.dirname(p), exist_ok=True)
         c = comments.get(m, "")
+        # the comment goes on the LAST line so that line numbers of the diagnostics do not move
         with open(p, "w") as f:
-            f.write((c + "\n" if c else "") + WITNESS)
+            f.write(WITNESS + (c + "\n" if c else ""))
 
 
 def per_module_diags(errors: list[str]) -> dict[str, list[str]]:
@@ -432,7 +485,7 @@ def per_module_diags(errors: list[str]) -> dict[str, list[str]]:
     for line in errors:
         mm = re.match(r"([^:]+):(\d+): (.*)", line)
         if mm:
-            byfile.setdefault(mm.group(1), []).append(mm.group(3))
+            byfile.setdefault(mm.group(1), []).append(mm.group(2) + ": " + mm.group(3))
     return {m: byfile.get(mod_path(m), []) for m in MODS}
 
 
@@ -455,8 +508,9 @@ def inproc_build(tree: str, argv_extra: list[str], cfg_text: str | None, fmt: st
                 argv = ["--config-file", FILE_NAMES[fmt]] + argv
         else:
             argv = ["--config-file="] + argv
-        so, se = io.StringIO(), io.StringIO()
-        sources, options = process_options(argv + ["a", "b", "c"], stdout=so, stderr=se)
+        so, se, pr = io.StringIO(), io.StringIO(), io.StringIO()
+        with contextlib.redirect_stdout(pr):
+            sources, options = process_options(argv + ["a", "b", "c"], stdout=so, stderr=se)
         options.use_builtins_fixtures = True
         options.incremental = False
         options.cache_dir = os.devnull
@@ -470,14 +524,14 @@ def inproc_build(tree: str, argv_extra: list[str], cfg_text: str | None, fmt: st
 
 
 def _wbuild(task: tuple[int, dict[str, Any], dict[str, Any], str, int, list[str]]) -> dict[str, Any]:
-    """One sampled configuration through a real build; every module gets a (seeded) inline choice."""
+    """One configuration through a real build; every module gets a (seeded) inline choice."""
     idx, rec, om, fmt, salt, inline_seq = task
     rnd = random.Random(salt * 7919 + 13)
     plan = Plan(rec, om, fmt, salt)
     choice = {m: rnd.choice(inline_seq) for m in MODS}
     tree = os.path.join(_W["dir"], "tree")
     write_tree(tree, {m: plan.inline[choice[m]] for m in MODS})
-    out: dict[str, Any] = {"idx": idx, "viol": [], "drift": [], "evals": 0, "dest": om["dest"], "fmt": fmt, "salt": salt}
+    out: dict[str, Any] = {"idx": idx, "viol": [], "drift": [], "evals": 0}
     try:
         opts, diags, noise = inproc_build(tree, plan.cmd, plan.text, fmt)
     except SystemExit as e:
@@ -499,32 +553,45 @@ def _wbuild(task: tuple[int, dict[str, Any], dict[str, Any], str, int, list[str]
         if got != imp:
             out["drift"].append("build: module %s real %r = doc, model impl %r" % (m, got, imp))
         if dest in WITNESS_OPTS:
-            # diagnostics oracle: what the unconfigured module reports when the option has the
-            # documented value for everybody (learned from a real run with only that one setting)
-            bkey = (dest, doc)
-            if bkey not in base:
-                write_tree(os.path.join(_W["dir"], "btree"), {})
-                kv = render_config("ini", [(dest, doc)], [], random.Random(0))
-                _, bd, _ = inproc_build(os.path.join(_W["dir"], "btree"), [], kv, "ini")
-                base[bkey] = bd
-            want = base[bkey][m]
-            if plan.inline[choice[m]]:
-                want = [w for w in want]  # the comment adds a first line; line numbers are not compared
-            if diags[m] != want:
-                out["viol"].append({"m": m, "i": choice[m], "got": diags[m], "doc": want, "imp": None, "via": "diagnostics"})
+            # diagnostics oracle: what the same module reports when the documented value is given to
+            # everybody by one [mypy] line (learned from a real run of the real code)
+            for val in {doc, imp}:
+                if (dest, val) not in base:
+                    bt = os.path.join(_W["dir"], "btree")
+                    write_tree(bt, {})
+                    _, bd, _ = inproc_build(bt, [], render_config("ini", [(dest, val)], [], random.Random(0)), "ini")
+                    if not any(bd.values()) and dest != "ignore_errors":
+                        out["machinery"] = "baseline build reports nothing (vacuous witness)"
+                        return out
+                    base[(dest, val)] = bd
+            if diags[m] != base[(dest, doc)][m]:
+                out["viol"].append({"m": m, "i": choice[m], "got": diags[m], "doc": base[(dest, doc)][m],
+                                    "imp": base[(dest, imp)][m], "via": "diagnostics"})
     return out
 
 
 def cli_run(tree: str, argv: list[str]) -> tuple[int, dict[str, list[str]], str]:
     p = subprocess.run([PY, "-m", "mypy", "--no-error-summary", "--hide-error-context", "--no-incremental",
                         "--cache-dir", os.devnull] + argv + ["a", "b", "c"],
-                       cwd=tree, env=repo_env(), capture_output=True, text=True, timeout=600)
+                       cwd=tree, env=repo_env(), capture_output=True, text=True, timeout=900)
     return p.returncode, per_module_diags(p.stdout.splitlines()), p.stderr.strip()
 
 
-def _wcli(task: tuple[int, dict[str, Any], dict[str, Any], str, int, list[str], str]) -> dict[str, Any]:
-    """One sampled configuration through the real command line (subprocess, real typeshed)."""
-    idx, rec, om, fmt, salt, inline_seq, root = task
+def _cli_baseline(task: tuple[str, str, Any]) -> tuple[str, Any, Any]:
+    root, dest, val = task
+    bt = os.path.join(root, "clibase-%s-%s" % (dest, val))
+    write_tree(bt, {})
+    with open(os.path.join(bt, "mypy.ini"), "w") as f:
+        f.write(render_config("ini", [(dest, val)], [], random.Random(0)))
+    rc, d, err = cli_run(bt, ["--config-file", "mypy.ini"])
+    if rc not in (0, 1) or err:
+        raise MachineryError("baseline CLI run failed: %s %s" % (rc, err[-300:]))
+    return dest, val, d
+
+
+def _wcli(task: tuple[int, dict[str, Any], dict[str, Any], str, int, list[str], str, dict[Any, Any]]) -> dict[str, Any]:
+    """One configuration through the real command line (subprocess, real typeshed)."""
+    idx, rec, om, fmt, salt, inline_seq, root, base = task
     rnd = random.Random(salt * 104729 + 7)
     plan = Plan(rec, om, fmt, salt)
     choice = {m: rnd.choice(inline_seq) for m in MODS}
@@ -534,40 +601,28 @@ def _wcli(task: tuple[int, dict[str, Any], dict[str, Any], str, int, list[str], 
         f.write(plan.text)
     argv = plan.cmd + ([] if fmt == "discover" else ["--config-file", FILE_NAMES[fmt]])
     rc, diags, err = cli_run(tree, argv)
-    out: dict[str, Any] = {"idx": idx, "viol": [], "evals": 0, "dest": om["dest"], "fmt": fmt, "salt": salt, "rc": rc}
+    out: dict[str, Any] = {"idx": idx, "viol": [], "evals": 0, "rc": rc}
     if rc not in (0, 1) or err:
         out["viol"].append({"m": None, "i": None, "why": "mypy exit %s stderr %s" % (rc, err[-400:])})
         return out
     dest, real = om["dest"], om["real"]
-    # baselines: the same tree without comments, the option set for everybody by a single [mypy] line
-    btree = os.path.join(root, "clibase")
-    base: dict[Any, dict[str, list[str]]] = {}
     for m in MODS:
         j, mi = inline_seq.index(choice[m]), MODS.index(m)
         doc = real[rec["doc"][j][mi]]
-        if doc not in base:
-            bt = btree + "-%s-%s" % (dest, doc)
-            if not os.path.exists(os.path.join(bt, "done.json")):
-                write_tree(bt, {})
-                with open(os.path.join(bt, "mypy.ini"), "w") as f:
-                    f.write(render_config("ini", [(dest, doc)], [], random.Random(0)))
-                brc, bd, berr = cli_run(bt, ["--config-file", "mypy.ini"])
-                if brc not in (0, 1) or berr:
-                    out["machinery"] = "baseline CLI run failed: %s %s" % (brc, berr[-300:])
-                    return out
-                with open(os.path.join(bt, "done.json.tmp%d" % os.getpid()), "w") as f:
-                    json.dump(bd, f)
-                os.replace(os.path.join(bt, "done.json.tmp%d" % os.getpid()), os.path.join(bt, "done.json"))
-            with open(os.path.join(bt, "done.json")) as f:
-                base[doc] = json.load(f)
         out["evals"] += 1
-        if diags[m] != base[doc][m]:
-            out["viol"].append({"m": m, "i": choice[m], "got": diags[m], "doc": base[doc][m], "imp": None, "via": "cli-diagnostics"})
+        want = base[(dest, doc)][m]
+        if diags[m] != want:
+            out["viol"].append({"m": m, "i": choice[m], "got": diags[m], "doc": want,
+                                "imp": base[(dest, real[rec["imp"][j][mi]])][m], "via": "cli-diagnostics"})
     return out
 
 
 # =========================================================================== source equivalence
 SNAP_IGNORE = {"config_file", "per_module_options"}
+# inputs of process_options that are consumed there and have no reader afterwards
+SNAP_INPUT_ONLY = {"no_site_packages", "files", "modules", "packages"}
+GLOBAL_SOURCES = ("cmd", "ini", "setupcfg", "toml", "toml-str")
+MODULE_SOURCES = ("ini-section", "toml-section", "toml-str-section", "inline")
 
 
 def snap(o: Any, extra_ignore: set[str] = set()) -> dict[str, Any]:
@@ -578,44 +633,35 @@ def snap(o: Any, extra_ignore: set[str] = set()) -> dict[str, Any]:
     return d
 
 
-def run_source(wdir: str, kind: str, key: str, value: Any, cmdline: list[str], module: str, salt: int) -> tuple[Any, Any, str]:
-    """Supply ONE setting through one source.  Returns (global Options, Options of `module`, complaints)."""
+def run_source(wdir: str, kind: str, key: str, value: Any, cmdline: list[str], module: str, salt: int,
+               targets_in_config: bool) -> tuple[Any, Any, str, Any]:
+    """Supply ONE setting through one source.  Returns (global Options, Options of `module`, complaints, targets)."""
     rnd = random.Random(salt)
     comment = ""
+    tail = ["--no-site-packages"] + ([] if targets_in_config else ["-c", "pass"])
+    las = "toml-str" in kind
+    fmt = "toml" if kind.startswith("toml") else ("setupcfg" if kind == "setupcfg" else "ini")
     if kind == "cmd":
-        class P:  # minimal Plan look-alike
-            fmt = "ini"; text = "[mypy]\n"
-            def argv(self, path: str | None) -> list[str]:
-                return ["--config-file", path] + cmdline + ["--no-site-packages", "-c", "pass"]
-        plan: Any = P()
+        plan = RawPlan("ini", "[mypy]\n", cmdline + tail)
+    elif kind in GLOBAL_SOURCES:
+        plan = RawPlan(fmt, render_config(fmt, [(key, value)], [], rnd, las), tail)
+    elif kind == "inline":
+        plan = RawPlan("ini", "[mypy]\n", tail)
+        comment = inline_comment(key, value, rnd)
     else:
-        fmt = {"ini": "ini", "setupcfg": "setupcfg", "toml": "toml", "ini-section": "ini", "toml-section": "toml",
-               "inline": "ini"}[kind]
-        if kind in ("ini", "setupcfg", "toml"):
-            text = render_config(fmt, [(key, value)], [], rnd)
-        elif kind in ("ini-section", "toml-section"):
-            text = render_config(fmt, [], [([module], [(key, value)])], rnd)
-        else:
-            text = render_config(fmt, [], [], rnd)
-            comment = inline_comment(key, value, rnd)
-
-        class Q:
-            def argv(self, path: str | None) -> list[str]:
-                return ["--config-file", path, "--no-site-packages", "-c", "pass"]
-        plan = Q()
-        plan.fmt, plan.text = fmt, text
-    options, complaint = real_options(plan, wdir)
+        plan = RawPlan(fmt, render_config(fmt, [], [([module], [(key, value)])], rnd, las), tail)
+    options, complaint, targets = real_options(plan, wdir, chdir=True)
     if options is None:
-        return None, None, complaint
+        return None, None, complaint, None
     fin, errs = final_options(options, module, comment)
     if errs:
         complaint += " inline: %r" % (errs,)
-    return options, fin, complaint
+    return options, fin, complaint, [(t.path, t.module, t.text) for t in targets]
 
 
 def equivalence_settings() -> list[dict[str, Any]]:
-    """Every setting of the option table, with its spelling on the command line (if any) and the
-    config-file key/value that the documentation gives for it (flag name with underscores)."""
+    """Every setting of the option table with its spelling on the command line (if any) and the config-file
+    spellings the documentation gives for it (flag name with underscores; Options attribute; inversions)."""
     import argparse
     from mypy.config_parser import ini_config_types
     from mypy.options import PER_MODULE_OPTIONS, Options
@@ -627,38 +673,43 @@ def equivalence_settings() -> list[dict[str, Any]]:
         "follow_imports": "skip", "platform": "win32", "custom_typing_module": "mytyping", "cache_dir": "/tmp/c17-cache-x",
         "junit_xml": "/tmp/c17-junit.xml", "junit_format": "per_file", "always_true": ["FOO", "BAR"],
         "always_false": ["BAZ"], "disable_error_code": ["attr-defined", "misc"], "enable_error_code": ["truthy-bool"],
-        "exclude": ["^build/"], "enable_incomplete_feature": ["PreciseTupleTypes"], "untyped_calls_exclude": ["foo.bar"],
+        "exclude": ["^build/"], "enable_incomplete_feature": ["PreciseTupleTypes"], "untyped_calls_exclude": ["foo.bar", "baz"],
         "deprecated_calls_exclude": ["foo.baz"], "custom_typeshed_dir": os.path.join(REPO, "mypy", "typeshed"),
-        "verbosity": 1, "num_workers": 2, "sqlite_num_shards": 4, "many_errors_threshold": 5, "output": "json",
-        "quickstart_file": "/tmp/c17-qs", "timing_stats": "/tmp/c17-ts", "line_checking_stats": "/tmp/c17-lcs",
-        "mypyc_annotation_file": "/tmp/c17-ann.html", "python_version": ver, "python_executable": sys.executable,
+        "verbosity": 1, "num_workers": 2, "sqlite_num_shards": 4, "many_errors_threshold": 5,
+        "quickstart_file": "/tmp/c17-qs", "python_version": ver, "python_executable": sys.executable,
         "mypy_path": ["/tmp/c17-p1", "/tmp/c17-p2"], "plugins": [], "files": ["x.py"], "modules": ["m1"], "packages": ["p1"],
     }
     settings: list[dict[str, Any]] = []
-    seen_cfg: set[tuple[str, str]] = set()
+
+    def dedupe(xs: list[Any]) -> list[Any]:
+        out: list[Any] = []
+        for x in xs:
+            if x not in out:
+                out.append(x)
+        return out
     for a in parser._actions:
-        if not a.option_strings or isinstance(a, (argparse._HelpAction,)) or a.dest in ("version", "config_file"):
+        if not a.option_strings or isinstance(a, argparse._HelpAction) or a.dest in ("version", "config_file"):
             continue
         dest = a.dest.split(":", 1)[1] if a.dest.startswith("special-opts:") else a.dest
+        if dest in ("files", "modules", "packages", "command", "cache_map", "find_occurrences"):
+            continue      # targets, not settings (the config-file keys files/modules/packages are below)
         longs = [s for s in a.option_strings if s.startswith("--")] or a.option_strings
         for flag in longs:
             name = flag.lstrip("-").replace("-", "_")
             per_module = dest in PER_MODULE_OPTIONS
             if isinstance(a, (argparse._StoreTrueAction, argparse._StoreFalseAction)):
-                if dest in ("strict",):
+                if dest == "strict":
                     spell = [("strict", True)]
                 elif dest == "no_executable":
                     spell = [("no_site_packages", True)]
                 else:
                     spell = [(name, True)]
-                    # the Options attribute itself, and the documented inversions of the flag name
-                    if hasattr(tmpl, dest) and isinstance(getattr(tmpl, dest), bool):
+                    if isinstance(getattr(tmpl, dest, None), bool):
                         spell.append((dest, a.const))
                         spell += [(k, not a.const) for k in _inversions(dest, tmpl)]
-                settings.append({"id": flag, "dest": dest, "cmd": [flag], "cfg": _dedupe(spell), "per_module": per_module,
-                                 "bool": True})
+                settings.append({"id": flag, "dest": dest, "cmd": [flag], "cfg": dedupe(spell), "per_module": per_module})
             elif isinstance(a, argparse._CountAction):
-                settings.append({"id": flag, "dest": dest, "cmd": [flag], "cfg": [(dest, 1)], "per_module": False, "bool": False})
+                settings.append({"id": flag, "dest": dest, "cmd": [flag], "cfg": [(dest, 1)], "per_module": False})
             elif isinstance(a, (argparse._StoreAction, argparse._AppendAction)) and a.nargs is None:
                 if dest.endswith("_report"):
                     val: Any = "/tmp/c17-report"
@@ -666,86 +717,102 @@ def equivalence_settings() -> list[dict[str, Any]]:
                 elif dest in sample:
                     val, key = sample[dest], dest
                 else:
-                    continue
-                if isinstance(val, list):
-                    cmd = [x for v in val for x in (flag, v)]
-                else:
-                    cmd = [flag, str(val)]
-                settings.append({"id": flag, "dest": dest, "cmd": cmd, "cfg": _dedupe([(name, val), (key, val)]),
-                                 "per_module": per_module, "bool": False})
-            for k, _ in settings[-1]["cfg"] if settings else []:
-                seen_cfg.add((dest, k))
-    # config-file-only keys of the option table
-    for key in sorted(ini_config_types):
-        if any(key == k for s in settings for k, _ in s["cfg"]):
+                    continue      # no config-file counterpart exists (stats files, --output, -a ...)
+                cmd = [x for one in val for x in (flag, one)] if isinstance(val, list) else [flag, str(val)]
+                settings.append({"id": flag, "dest": dest, "cmd": cmd, "cfg": dedupe([(name, val), (key, val)]),
+                                 "per_module": per_module})
+    have = {k for s in settings for k, _ in s["cfg"]}
+    for key in sorted(ini_config_types):      # config-file-only keys of the option table
+        if key in have:
             continue
         if key in sample:
             settings.append({"id": "cfg:" + key, "dest": key, "cmd": None, "cfg": [(key, sample[key])], "per_module": False,
-                             "bool": False})
+                             "targets": key in ("files", "modules", "packages")})
         elif key in ("strict", "no_site_packages"):
-            settings.append({"id": "cfg:" + key, "dest": key, "cmd": None, "cfg": [(key, True)], "per_module": False, "bool": True})
-    # per-module booleans that have no flag at all
-    for dest in sorted(PER_MODULE_OPTIONS):
+            settings.append({"id": "cfg:" + key, "dest": key, "cmd": None, "cfg": [(key, True)], "per_module": False})
+    for dest in sorted(PER_MODULE_OPTIONS):   # per-module booleans that have no flag at all
         dv = getattr(tmpl, dest, None)
         if isinstance(dv, bool) and not any(s["dest"] == dest for s in settings):
-            for v in (True, False):
-                spell = [(dest, v)] + [(k, not v) for k in _inversions(dest, tmpl)]
-                settings.append({"id": "cfg:%s=%s" % (dest, v), "dest": dest, "cmd": None, "cfg": spell, "per_module": True,
-                                 "bool": True})
+            for val in (True, False):
+                spell = [(dest, val)] + [(k, not val) for k in _inversions(dest, tmpl)]
+                settings.append({"id": "cfg:%s=%s" % (dest, val), "dest": dest, "cmd": None, "cfg": spell, "per_module": True})
     return settings
 
 
-def _dedupe(xs: list[Any]) -> list[Any]:
-    out = []
-    for x in xs:
-        if x not in out:
-            out.append(x)
-    return out
-
-
 def _wequiv(task: tuple[dict[str, Any], int]) -> dict[str, Any]:
-    """All sources x all spellings of one setting; pairwise comparison of the Options they produce."""
+    """All sources x all spellings of one setting; the Options they produce are grouped into classes."""
     st, seed = task
     wdir = _W["dir"]
+    for n in ("x.py", "m1.py", os.path.join("p1", "__init__.py")):
+        os.makedirs(os.path.dirname(os.path.join(wdir, n)) or wdir, exist_ok=True)
+        open(os.path.join(wdir, n), "w").close()
     module = "pkg.mod"
-    runs: list[tuple[str, str, Any, Any, str]] = []   # (source, spelling, global snapshot, module snapshot, complaint)
+    tic = bool(st.get("targets"))
+    runs: list[tuple[str, str, Any, Any, str, Any]] = []
     n = 0
     if st["cmd"] is not None:
-        o, f, c = run_source(wdir, "cmd", "", None, st["cmd"], module, seed)
-        runs.append(("cmd", " ".join(st["cmd"]), o, f, c)); n += 1
+        o, f, c, t = run_source(wdir, "cmd", "", None, st["cmd"], module, seed, tic)
+        runs.append(("cmd", " ".join(st["cmd"]), o, f, c, t)); n += 1
     for key, val in st["cfg"]:
-        for kind in ("ini", "setupcfg", "toml"):
-            o, f, c = run_source(wdir, kind, key, val, [], module, seed + n)
-            runs.append((kind, "%s=%r" % (key, val), o, f, c)); n += 1
+        kinds = ["ini", "setupcfg", "toml"] + (["toml-str"] if isinstance(val, list) else [])
         if st["per_module"]:
-            for kind in ("ini-section", "toml-section", "inline"):
-                o, f, c = run_source(wdir, kind, key, val, [], module, seed + n)
-                runs.append((kind, "%s=%r" % (key, val), o, f, c)); n += 1
-    out: dict[str, Any] = {"id": st["id"], "runs": n, "accepted": [], "rejected": [], "diff": [], "pairs": 0}
+            kinds += ["ini-section", "toml-section", "inline"] + (["toml-str-section"] if isinstance(val, list) else [])
+        for kind in kinds:
+            o, f, c, t = run_source(wdir, kind, key, val, [], module, seed + n, tic)
+            runs.append((kind, key, o, f, c, t)); n += 1
+    out: dict[str, Any] = {"id": st["id"], "runs": n, "accepted": [], "rejected": [], "diff": [], "pairs": 0, "accept_diff": []}
     ok = []
-    for src, sp, o, f, c in runs:
+    for src, sp, o, f, c, t in runs:
         if o is None or c:
-            out["rejected"].append([src, sp, (c or "")[:200]])
+            out["rejected"].append([src, sp, (c or "")[:160]])
         else:
-            ok.append((src, sp, o, f))
+            ok.append((src, sp, o, f, t))
             out["accepted"].append([src, sp])
-    glob_scope = [r for r in ok if r[0] in ("cmd", "ini", "setupcfg", "toml")]
-    mod_scope = [r for r in ok if r[0] in ("ini-section", "toml-section", "inline")]
+    # a spelling is either understood by every config-file format or by none
+    for key, val in st["cfg"]:
+        for grp in (("ini", "setupcfg", "toml", "toml-str"), ("ini-section", "toml-section", "toml-str-section", "inline")):
+            tried = [r[0] for r in runs if r[1] == key and r[0] in grp]
+            acc = [r[0] for r in ok if r[1] == key and r[0] in grp]
+            if tried and acc and len(acc) != len(tried):
+                out["accept_diff"].append({"key": key, "accepted": acc, "rejected": [x for x in tried if x not in acc]})
     dest = st["dest"]
-    for grp, which, ign in ((glob_scope, 2, set()), (mod_scope, 3, {"ignore_missing_imports_per_module"} - {""})):
-        for x, y in itertools.combinations(grp, 2):
-            out["pairs"] += 1
-            sx, sy = snap(x[which], ign if which == 3 else set()), snap(y[which], ign if which == 3 else set())
-            if sx != sy:
-                d = {k: [repr(sx.get(k)), repr(sy.get(k))] for k in set(sx) | set(sy) if sx.get(k) != sy.get(k)}
-                out["diff"].append({"a": list(x[:2]), "b": list(y[:2]), "scope": "global" if which == 2 else "module", "diff": d})
-    # across scopes: the module's view of the option itself must be the same
-    if glob_scope and mod_scope and hasattr(glob_scope[0][3], dest):
-        x, y = glob_scope[0], mod_scope[0]
+
+    def classes(grp: list[Any], view: Any) -> list[list[str]]:
+        cl: list[tuple[Any, list[str]]] = []
+        for r in grp:
+            vw = view(r)
+            for v0, names in cl:
+                out["pairs"] += 1
+                if v0 == vw:
+                    names.append("%s:%s" % (r[0], r[1]))
+                    break
+            else:
+                cl.append((vw, ["%s:%s" % (r[0], r[1])]))
+        out.setdefault("_views", []).append(cl)
+        return [sorted(names) for _, names in cl]
+    ign = SNAP_INPUT_ONLY if not tic else (SNAP_INPUT_ONLY - {"files", "modules", "packages"})
+    gl = [r for r in ok if r[0] in GLOBAL_SOURCES]
+    ml = [r for r in ok if r[0] in MODULE_SOURCES]
+    for scope, grp, view in (("global", gl, lambda r: (snap(r[2], ign), r[4])),
+                             ("module", ml, lambda r: snap(r[3], ign | {"ignore_missing_imports_per_module"}))):
+        cl = classes(grp, view)
+        if len(cl) > 1:
+            views = out["_views"][-1]
+            a, b = views[0][0], views[1][0]
+            da = a[0] if isinstance(a, tuple) else a
+            db = b[0] if isinstance(b, tuple) else b
+            d = {k: [repr(da.get(k)), repr(db.get(k))] for k in set(da) | set(db) if da.get(k) != db.get(k)}
+            if isinstance(a, tuple) and a[1] != b[1]:
+                d["<targets>"] = [repr(a[1]), repr(b[1])]
+            out["diff"].append({"scope": scope, "classes": sorted(cl), "attrs": d})
+    # across scopes: the module's own view of the option must be the same
+    if gl and ml and hasattr(gl[0][3], dest):
         out["pairs"] += 1
-        vx, vy = getattr(x[3], dest), getattr(y[3], dest)
+        vx, vy = getattr(gl[0][3], dest), getattr(ml[0][3], dest)
         if vx != vy:
-            out["diff"].append({"a": list(x[:2]), "b": list(y[:2]), "scope": "cross", "diff": {dest: [repr(vx), repr(vy)]}})
+            out["diff"].append({"scope": "cross", "classes": [["%s:%s" % gl[0][:2]], ["%s:%s" % ml[0][:2]]],
+                                "attrs": {dest: [repr(vx), repr(vy)]}})
+    out.pop("_views", None)
     return out
 
 
@@ -759,25 +826,28 @@ def _wequiv_diag(task: tuple[dict[str, Any], int]) -> dict[str, Any]:
     st, seed = task
     tree = os.path.join(_W["dir"], "etree")
     out: dict[str, Any] = {"id": st["id"], "runs": 0, "diff": []}
-    key, val = st["cfg"][0]
-    results = []
-    write_tree(tree, {})
     rnd = random.Random(seed)
-    for src in ("cmd", "ini", "setupcfg", "toml"):
-        if src == "cmd":
-            _, d, noise = inproc_build(tree, st["cmd"], "[mypy]\n", "ini")
-        else:
-            _, d, noise = inproc_build(tree, [], render_config(src, [(key, val)], [], rnd), src)
-        results.append((src, d)); out["runs"] += 1
+    write_tree(tree, {})
+    results = []
+    for key, val in st["cfg"]:
+        for src in ("cmd", "ini", "setupcfg", "toml"):
+            if src == "cmd":
+                _, d, _ = inproc_build(tree, st["cmd"], "[mypy]\n", "ini")
+            else:
+                _, d, _ = inproc_build(tree, [], render_config(src, [(key, val)], [], rnd), src)
+            results.append((src + ":" + key, d)); out["runs"] += 1
+    if not any(results[0][1].values()):
+        out["machinery"] = "witness tree reports nothing"
     for (sa, da), (sb, db) in itertools.combinations(results, 2):
         if da != db:
             out["diff"].append({"a": sa, "b": sb, "scope": "global-diagnostics"})
     mres = []
+    key, val = st["cfg"][0]
     for src in ("ini-section", "toml-section", "inline"):
         fmt = "toml" if src.startswith("toml") else "ini"
         if src == "inline":
             write_tree(tree, {"a.b.c": inline_comment(key, val, rnd)})
-            _, d, _ = inproc_build(tree, [], render_config("ini", [], [], rnd), "ini")
+            _, d, _ = inproc_build(tree, [], "[mypy]\n", "ini")
             write_tree(tree, {})
         else:
             _, d, _ = inproc_build(tree, [], render_config(fmt, [], [(["a.b.c"], [(key, val)])], rnd), fmt)
@@ -785,10 +855,74 @@ def _wequiv_diag(task: tuple[dict[str, Any], int]) -> dict[str, Any]:
     for (sa, da), (sb, db) in itertools.combinations(mres, 2):
         if da != db:
             out["diff"].append({"a": sa, "b": sb, "scope": "module-diagnostics"})
-    # the module-scope setting changes a.b.c exactly as the global one does, and nothing else
-    g, mdl = results[0][1], mres[0][1]
-    if mdl["a.b.c"] != g["a.b.c"]:
+    # the module-scope setting changes a.b.c exactly as the global one does
+    if mres[0][1]["a.b.c"] != results[0][1]["a.b.c"]:
         out["diff"].append({"a": "cmd", "b": mres[0][0], "scope": "cross-diagnostics"})
+    return out
+
+
+# settings whose effect on diagnostics is observed through the real command line, one source at a time:
+# (config key, value, flag, context flags given to every run, {file: text})
+CLI_WITNESS = [
+    ("deprecated_calls_exclude", ["lib"], "--deprecated-calls-exclude", ["--enable-error-code", "deprecated"],
+     {"lib.py": "from typing_extensions import deprecated\n@deprecated('use g')\ndef f() -> None: ...\n",
+      "main.py": "from lib import f\nf()\n"}),
+    ("untyped_calls_exclude", ["lib"], "--untyped-calls-exclude", ["--disallow-untyped-calls"],
+     {"lib.py": "def g(x):\n    return x\n", "main.py": "from lib import g\ndef h() -> None:\n    g(1)\n"}),
+    ("always_true", ["FOO", "BAR"], "--always-true", [],
+     {"main.py": "FOO = False\nBAR = False\nif not FOO:\n    1 + ''\nif not BAR:\n    2 + ''\n"}),
+    ("always_false", ["FOO", "BAR"], "--always-false", [],
+     {"main.py": "FOO = True\nBAR = True\nif FOO:\n    1 + ''\nif BAR:\n    2 + ''\n"}),
+    ("disable_error_code", ["operator", "attr-defined"], "--disable-error-code", [],
+     {"main.py": "1 + ''\n(1).nope\n"}),
+    ("enable_error_code", ["truthy-bool", "redundant-expr"], "--enable-error-code", [],
+     {"main.py": "class C: pass\ndef f(c: C, i: int) -> None:\n    if c: pass\n    if i == 1 and i == 1: pass\n"}),
+]
+
+
+def _cli_witness(task: tuple[int, str]) -> dict[str, Any]:
+    wi, root = task
+    key, val, flag, ctx, files = CLI_WITNESS[wi]
+    rnd = random.Random(wi)
+    runs: list[tuple[str, str]] = []
+    out: dict[str, Any] = {"id": key, "runs": 0, "classes": []}
+
+    def one(name: str, fmt: str | None, text: str | None, argv: list[str]) -> str:
+        d = os.path.join(root, "cw%d-%s" % (wi, name))
+        os.makedirs(d, exist_ok=True)
+        for fn, src in files.items():
+            with open(os.path.join(d, fn), "w") as f:
+                f.write(src)
+        cf = ["--config-file="]
+        if fmt is not None:
+            with open(os.path.join(d, FILE_NAMES[fmt]), "w") as f:
+                f.write(text or "")
+            cf = ["--config-file", FILE_NAMES[fmt]]
+        p = subprocess.run([PY, "-m", "mypy", "--no-error-summary", "--no-incremental", "--cache-dir", os.devnull] + cf + ctx + argv
+                           + ["main.py"], cwd=d, env=repo_env(), capture_output=True, text=True, timeout=900)
+        out["runs"] += 1
+        if p.returncode not in (0, 1) or p.stderr.strip():
+            return "FAILED rc=%s %s" % (p.returncode, p.stderr.strip()[-300:])
+        return p.stdout
+    none = one("none", None, None, [])
+    runs.append(("cmd", one("cmd", None, None, [x for v1 in val for x in (flag, v1)])))
+    for fmt in ("ini", "setupcfg", "toml"):
+        runs.append((fmt, one(fmt, fmt, render_config(fmt, [(key, val)], [], rnd), [])))
+    runs.append(("toml-str", one("tomlstr", "toml", render_config("toml", [(key, val)], [], rnd, True), [])))
+    if all(r[1] == none for r in runs) or none.startswith("FAILED"):
+        out["machinery"] = "witness for %s is vacuous: %r" % (key, none[:300])
+        return out
+    cl: list[tuple[str, list[str]]] = []
+    for name, txt in runs:
+        for t0, names in cl:
+            if t0 == txt:
+                names.append(name)
+                break
+        else:
+            cl.append((txt, [name]))
+    out["classes"] = [sorted(n) for _, n in cl]
+    out["outputs"] = {",".join(sorted(n)): t for t, n in cl}
+    out["without_setting"] = none
     return out
 
 
@@ -796,22 +930,22 @@ def _wequiv_diag(task: tuple[dict[str, Any], int]) -> dict[str, Any]:
 def run_tlc(tier: str, seed: int) -> dict[str, Any]:
     thorough = tier == "thorough"
     jobs: dict[str, Any] = {}
-    with ThreadPoolExecutor(16) as ex:
+    with ThreadPoolExecutor(20) as ex:
         def go(name: str, cfg: str, **kw: Any) -> None:
             kw.setdefault("heap", "2g")
             jobs[name] = ex.submit(tlc, "MC_Config", cfg, **kw)
-        # emission runs first: the replay waits for them
-        go("gen3", "Gen_Config_3.cfg", coverage=False, workers=4, timeout=1500, heap="3g")
-        go("gen3v", "Gen_Config_3v.cfg", coverage=False, workers=2, timeout=900)
+        # emission runs first (the replay waits for them), partitioned by the first section's pattern
+        for k in range(1, 7):
+            go("gen:%d" % k, "Gen_Config_%d_%d.cfg" % (4 if thorough else 3, k), coverage=False,
+               workers=2 if thorough else 1, timeout=1700, heap="1g")
+        go("gen3v", "Gen_Config_3v.cfg", coverage=False, workers=2, timeout=900, heap="1g")
         if thorough:
-            for k in range(1, 7):
-                go("gen4:%d" % k, "Gen_Config_4_%d.cfg" % k, coverage=False, workers=2, timeout=1700, heap="3g")
-            go("genB", "Gen_Config_B.cfg", coverage=False, workers=2, timeout=1500, heap="3g")
+            go("genB", "Gen_Config_B.cfg", coverage=False, workers=2, timeout=1500, heap="1g")
         else:
-            go("sim4", "Gen_Config_4.cfg", coverage=False, workers=2, timeout=600, simulate="num=1500", depth=12,
-               seed=seed + 1)
+            go("sim4", "Gen_Config_4.cfg", coverage=False, workers=1, timeout=600, simulate="num=1500", depth=12,
+               seed=seed + 1, heap="1g")
         go("mc", "MC_Config_4.cfg" if thorough else "MC_Config.cfg", timeout=1700, workers=8 if thorough else 6,
-           heap="4g")
+           heap="3g")
         go("mc3v", "MC_Config_3v.cfg", timeout=900, workers=2)
         go("doc", "MC_Config_Doc.cfg", coverage=False, workers=1, heap="1g")
         for m in ("NoSort", "ConcreteFirst", "FirstGlobWins"):
@@ -821,11 +955,50 @@ def run_tlc(tier: str, seed: int) -> dict[str, Any]:
         return {k: f.result() for k, f in jobs.items()}
 
 
+def do_replay(path: str) -> int:
+    """bin/vcheck C17 --replay <file>: run the recorded minimal case again against the real code."""
+    with open(path) as f:
+        data = json.load(f)
+    rep, key = data["replay"], data["key"]
+    wdir = scratch("c17r-")
+    _W["dir"] = wdir
+    if key.startswith("equiv"):
+        sid = key.split(":")[1] if not key.startswith("equiv:cfg") else ":".join(key.split(":")[1:3])
+        st = [s for s in equivalence_settings() if s["id"] == sid]
+        if not st:
+            print("setting %s no longer exists" % sid)
+            return 2
+        out = _wequiv((st[0], 0))
+        print(json.dumps({"diff": out["diff"], "accept_diff": out["accept_diff"]}, indent=1))
+        bad = bool(out["diff"] or out["accept_diff"])
+    elif "config" in rep and rep.get("module") and "doc" in rep:
+        dest = rep.get("option_in_minimal_configuration") or rep["option"]
+        plan = RawPlan("ini", rep["config"], [a for a in rep["argv"] if a not in ("--config-file", "mypy.ini")])
+        options, complaint, _ = real_options(plan, wdir)
+        if options is None:
+            print("rejected:", complaint)
+            return 1
+        fin, errs = final_options(options, rep["module"], rep.get("inline") or "")
+        got = getattr(fin, dest)
+        print("config:\n%sargv: %s\nmodule %s: %s = %r; documented value %r" % (rep["config"], plan.tail, rep["module"], dest, got, rep["doc"]))
+        bad = got != rep["doc"]
+    else:
+        print("nothing replayable in", path)
+        return 2
+    if bad:
+        print("VIOLATION property=%s replay=%s" % (PID, path))
+    return 1 if bad else 0
+
+
 # =========================================================================== main
 def main(argv: list[str]) -> int:
     tier, seed, replay = parse_args(argv)
+    if replay:
+        return do_replay(replay)
     v = Verdict(PID, tier, seed)
     thorough = tier == "thorough"
+    for name in ("MYPY_CACHE_DIR", "MYPY_NUM_WORKERS", "MYPYPATH", "MYPY_FORCE_COLOR"):
+        os.environ.pop(name, None)      # documented environment overrides are not part of the property
     root = scratch("c17-")
     sany(os.path.join(SPEC, "MC_Config.tla"))
     t0 = time.time()
@@ -854,9 +1027,9 @@ def main(argv: list[str]) -> int:
     cov["documentation_read_literally"] = {
         "violated": rd.violated, "states": rd.distinct,
         "counterexample_last_state": rd.trace_text.strip().split("State ")[-1][:600] if rd.violated else None,
-        "note": "LeadingStarZero=TRUE: 'stars match zero or more module components' applied to a leading star; "
-                "the exhaustive configs use the reading under which a leading star needs one component; the replay "
-                "oracle is the literal reading"}
+        "note": "MC_Config_Doc.cfg, LeadingStarZero=TRUE: 'stars match zero or more module components' applied to a "
+                "leading star too. The exhaustive configs use the reading under which a leading star needs one "
+                "component (what compile_glob does); the replay oracle is the literal reading."}
     mut = {}
     for m, inv in (("NoSort", "ParentsFirst"), ("ConcreteFirst", "PrecedenceAsDocumented"), ("FirstGlobWins", "PrecedenceAsDocumented")):
         rm = R["mut:" + m]
@@ -866,39 +1039,45 @@ def main(argv: list[str]) -> int:
     cov["spec_mutants_rejected"] = mut
 
     # ---- 2. configurations emitted by TLC
-    def records(r: Any, what: str) -> list[dict[str, Any]]:
+    def records(name: str) -> list[dict[str, Any]]:
+        r = R[name]
         if r.error or r.violated:
-            raise MachineryError("Gen %s: %s %s" % (what, r.violated, r.error))
+            raise MachineryError("Gen %s: %s %s" % (name, r.violated, r.error))
         mods = r.json_lines("MODS")
         if not mods or mods[0] != MODS:
             raise MachineryError("module order of the specification differs from the driver's")
-        return r.json_lines("CFG")
+        res = r.json_lines("CFG")
+        r.out = ""; r.printed = []
+        return res
 
-    recs2 = records(R["gen3"], "gen3")
-    if len(recs2) != 31761:
-        raise MachineryError("expected 31761 configurations with <=3 sections, TLC emitted %d" % len(recs2))
-    index = {rec_key(r["s"], r["g"], r["c"]): r for r in recs2}
-    recs3v = records(R["gen3v"], "gen3v")
-    extra: list[dict[str, Any]] = []
-    if thorough:
-        for k in range(1, 7):
-            for r in records(R["gen4:%d" % k], "gen4:%d" % k):
-                key = rec_key(r["s"], r["g"], r["c"])
-                if key not in index:
-                    index[key] = r
-                    extra.append(r)
-        recsB = records(R["genB"], "genB")
-    else:
-        for r in records(R["sim4"], "sim4"):
+    index: dict[str, dict[str, Any]] = {}
+    recs: list[dict[str, Any]] = []
+    for k in range(1, 7):
+        for r in records("gen:%d" % k):
+            key = rec_key(r["s"], r["g"], r["c"])
+            if key not in index:
+                index[key] = r
+                recs.append(r)
+    want_n = 294201 if thorough else 31761
+    if len(recs) != want_n:
+        raise MachineryError("expected %d configurations, TLC emitted %d" % (want_n, len(recs)))
+    n_exh = len(recs)
+    if not thorough:
+        n4 = 0
+        for r in records("sim4"):
             key = rec_key(r["s"], r["g"], r["c"])
             if key not in index and len(r["s"]) == 4:
                 index[key] = r
-                extra.append(r)
-        recsB = []
-        if len(extra) < 50:
-            raise MachineryError("simulation produced too few 4-section configurations: %d" % len(extra))
-    if thorough and len(recs2) + len(extra) != 294201:
-        raise MachineryError("expected 294201 configurations with <=4 sections, got %d" % (len(recs2) + len(extra)))
+                recs.append(r)
+                n4 += 1
+        if n4 < 50:
+            raise MachineryError("simulation produced too few 4-section configurations: %d" % n4)
+    else:
+        n4 = sum(1 for r in recs if len(r["s"]) == 4)
+    recs3v = records("gen3v")
+    index3v = {rec_key(r["s"], r["g"], r["c"]): r for r in recs3v}
+    recsB = records("genB") if thorough else []
+    indexB = {rec_key(r["s"], r["g"], r["c"]): r for r in recsB}
 
     # ---- 3. refinement maps
     maps = build_optmaps()
@@ -908,55 +1087,44 @@ def main(argv: list[str]) -> int:
     if len(pm_bool) < 25 or len(pm_bool_cmd) < 20:
         raise MachineryError("option tables look wrong: %d per-module booleans" % len(pm_bool))
     inline2, inline3 = [UNSET, "p", "q"], [UNSET, "p", "q", "r"]
+    nfmt = len(FORMATS)
 
     def pick_map(idx: int, rec: dict[str, Any]) -> dict[str, Any]:
         pool = pm_bool_cmd if rec["c"] != UNSET else pm_bool
         k = (idx * 7 + seed * 13) % (len(pool) + 3)
         return enum if k >= len(pool) else pool[k]
 
-    tasks: list[Any] = []
-    all_recs: list[tuple[dict[str, Any], list[str]]] = []
-    for rec in recs2 + extra:
-        all_recs.append((rec, inline2))
-    for rec in recs3v:
-        all_recs.append((rec, inline3))
     items2: list[Any] = []
     items3: list[Any] = []
-    nfmt = len(FORMATS)
-    for idx, (rec, inl) in enumerate(all_recs):
-        if inl is inline3:
-            items3.append((idx, rec, enum, FORMATS[(idx + seed) % nfmt], seed * 1000003 + idx))
-        else:
-            om = pick_map(idx, rec)
-            items2.append((idx, rec, om, FORMATS[(idx + seed) % nfmt], seed * 1000003 + idx))
-            if thorough or idx % 2 == 0:
-                # a second pass in another file format and with the next option
-                om2 = pick_map(idx + 1, rec)
-                items2.append((idx, rec, om2, FORMATS[(idx + seed + 1 + idx // nfmt) % nfmt], seed * 1000003 + idx + 500009))
-    # per-option sweep: every option x every configuration of <=1 section x every source pair
-    small = [r for r in recs2 if len(r["s"]) <= 1]
-    base_idx = len(all_recs)
+    g_items: list[Any] = []
+    idx = 0
+    for rec in recs + recsB:
+        items2.append((idx, rec, pick_map(idx, rec), FORMATS[(idx + seed) % nfmt], seed * 1000003 + idx))
+        if thorough or idx % 4 == 0:      # a second pass: next option, another file format
+            items2.append((idx, rec, pick_map(idx + 1, rec), FORMATS[(idx + seed + 1 + idx // nfmt) % nfmt],
+                           seed * 1000003 + idx + 500009))
+        idx += 1
+    for rec in recs3v:
+        items3.append((idx, rec, enum, FORMATS[(idx + seed) % nfmt], seed * 1000003 + idx))
+        idx += 1
+    # per-option sweep: every option x every configuration of <=1 section (all pairs of sources)
+    small = [r for r in recs if len(r["s"]) <= 1]
     for oi, om in enumerate(sorted(maps.values(), key=lambda m: m["dest"])):
         for si, rec in enumerate(small):
             if rec["c"] != UNSET and not om["cmd"].get(rec["c"]):
                 continue
-            if om["kind"] == "enum" and False:
-                continue
             if not om["per_module"] and rec["s"]:
                 continue
-            it = (base_idx + oi * 1000 + si, rec, om, FORMATS[(oi + si + seed) % nfmt], seed * 7 + oi * 1000 + si)
-            if om["per_module"]:
-                items2.append(it)
-            else:
-                items2.append(it + ("noinline",))
-    # global-only options have no inline / section source: replay with inline choices restricted to Unset
-    g_items = [it[:5] for it in items2 if len(it) == 6]
-    items2 = [it for it in items2 if len(it) == 5]
+            it = (idx, rec, om, FORMATS[(oi + si + seed) % nfmt], seed * 7 + oi * 1000 + si)
+            idx += 1
+            (items2 if om["per_module"] else g_items).append(it)
 
-    def chunks(items: list[Any], inl: list[str], n: int = 150) -> list[Any]:
+    def chunks(items: list[Any], inl: list[str], n: int = 200) -> list[Any]:
         return [(items[i:i + n], inl) for i in range(0, len(items), n)]
+    # global-only options have no section / inline source: inline choices restricted to Unset
     work = chunks(items2, inline2) + chunks(items3, inline3) + chunks(g_items, [UNSET])
     random.Random(seed).shuffle(work)
+    rec_of = {(it[0], it[2]["dest"], it[3], it[4]): it for it in items2 + items3 + g_items}
 
     # ---- 4. replay into the real code
     ctx = multiprocessing.get_context("fork")
@@ -964,29 +1132,27 @@ def main(argv: list[str]) -> int:
     t1 = time.time()
     replayed = evals = 0
     bad: list[Any] = []
-    rec_of = {}
-    for it in items2 + items3 + g_items:
-        rec_of[(it[0], it[2]["dest"], it[3], it[4])] = it
     with ctx.Pool(nproc, initializer=_winit, initargs=(root,)) as pool:
         for out in pool.imap_unordered(_wreplay, work):
-            for idx, dest, fmt, salt, r in out:
+            for ridx, dest, fmt, salt, r in out:
                 replayed += 1
                 evals += r["evals"]
                 if dest is not None:
-                    bad.append((idx, dest, fmt, salt, r))
+                    bad.append((ridx, dest, fmt, salt, r))
         t_replay = time.time() - t1
 
-        # ---- 5. a sample through real builds, and through the real command line
+        # ---- 5. real builds: every <=1-section configuration + a seeded sample of the rest
         t2 = time.time()
         witness_maps = [maps[d] for d in WITNESS_OPTS]
-        pool_recs = recs2 + extra
         rnd = random.Random(seed)
-        nb = 1600 if thorough else 240
-        # deterministic part: every configuration of <=1 section for the first witness option
-        btasks = [(i, rec, witness_maps[i % len(witness_maps)] if (rec["c"] == UNSET or witness_maps[i % len(witness_maps)]["has_cmd"]) else witness_maps[0],
-                   FORMATS[i % nfmt], seed * 31 + i, inline2) for i, rec in enumerate(small)]
-        for i in range(nb):
-            rec = rnd.choice(pool_recs)
+        btasks = []
+        for i, rec in enumerate(small):
+            om = witness_maps[i % len(witness_maps)]
+            if rec["c"] != UNSET and not om["has_cmd"]:
+                om = witness_maps[0]
+            btasks.append((i, rec, om, FORMATS[i % nfmt], seed * 31 + i, inline2))
+        for i in range(1600 if thorough else 240):
+            rec = rnd.choice(recs)
             om = rnd.choice(witness_maps + [enum])
             if rec["c"] != UNSET and not om["has_cmd"]:
                 om = witness_maps[0]
@@ -1008,6 +1174,9 @@ def main(argv: list[str]) -> int:
         eq = list(pool.imap_unordered(_wequiv, [(s, seed) for s in settings], chunksize=2))
         wit = [s for s in settings if s["id"] in EQUIV_WITNESS]
         eqd = list(pool.imap_unordered(_wequiv_diag, [(s, seed) for s in wit]))
+        for e in eqd:
+            if "machinery" in e:
+                raise MachineryError(e["machinery"])
         t_equiv = time.time() - t3
 
     # ---- 7. the real command line (subprocess, real typeshed)
@@ -1015,129 +1184,155 @@ def main(argv: list[str]) -> int:
     ncli = 48 if thorough else 12
     rnd = random.Random(seed + 99)
     cli_maps = [maps["disallow_untyped_defs"], maps["strict_optional"], maps["ignore_errors"]]
-    ctasks = []
-    for i in range(ncli):
-        rec = small[(i * 37 + seed) % len(small)] if i % 2 == 0 else rnd.choice(recs2 + extra)
-        om = cli_maps[i % len(cli_maps)]
-        if rec["c"] != UNSET and not om["has_cmd"]:
-            om = cli_maps[0]
-        ctasks.append((i, rec, om, FORMATS[i % nfmt], seed * 17 + i, inline2, root))
-    cli_runs = cli_evals = 0
-    cbad: list[Any] = []
     with ThreadPoolExecutor(min(12, nproc)) as ex:
+        cbase = {(d, val): diag for d, val, diag in
+                 ex.map(_cli_baseline, [(root, m["dest"], val) for m in cli_maps for val in (True, False)])}
+        if not any(any(x.values()) for x in cbase.values()):
+            raise MachineryError("command-line baselines report nothing (vacuous witness)")
+        ctasks = []
+        for i in range(ncli):
+            rec = small[(i * 37 + seed) % len(small)] if i % 2 == 0 else rnd.choice(recs)
+            om = cli_maps[i % len(cli_maps)]
+            if rec["c"] != UNSET and not om["has_cmd"]:
+                om = cli_maps[0]
+            ctasks.append((i, rec, om, FORMATS[i % nfmt], seed * 17 + i, inline2, root, cbase))
+        cli_runs = cli_evals = 0
+        cbad: list[Any] = []
         for out in ex.map(_wcli, ctasks):
-            if "machinery" in out:
-                raise MachineryError(out["machinery"])
             cli_runs += 1
             cli_evals += out["evals"]
             if out["viol"]:
                 cbad.append(out)
+        cw = list(ex.map(_cli_witness, [(i, root) for i in range(len(CLI_WITNESS))]))
+        for e in cw:
+            if "machinery" in e:
+                raise MachineryError(e["machinery"])
     t_cli = time.time() - t4
 
-    if replayed == 0 or builds == 0 or cli_runs == 0 or not eq:
+    if replayed == 0 or builds == 0 or cli_runs == 0 or not eq or evals == 0:
         raise MachineryError("conformance step did not run")
 
     # ---- 8. verdicts
     _winit(root)
-    mini = Minimiser(index, _W["dir"], inline2)
+    minis = {3: Minimiser(index, _W["dir"], enum), 4: Minimiser(index3v, _W["dir"], enum)}
+    miniB = Minimiser(indexB, _W["dir"], enum)
     drift: list[str] = []
     complaints: list[str] = []
     reported: dict[str, int] = {}
     n_disagree = 0
-    for idx, dest, fmt, salt, r in sorted(bad, key=lambda b: (b[0], b[1], b[2])):
-        drift += ["cfg %d (%s,%s): %s" % (idx, dest, fmt, d) for d in r["drift"][:3]]
-        it = rec_of[(idx, dest, fmt, salt)]
+    memo: dict[Any, Any] = {}
+    budget, skipped = [30], [0]     # real-code minimisations are capped; the rest is counted
+
+    def judge(rec: dict[str, Any], om: dict[str, Any], fmt: str, salt: int, vi: dict[str, Any], via: str) -> None:
+        nonlocal n_disagree
+        n_disagree += 1
+        plan = Plan(rec, om, fmt, salt)
+        dest = om["dest"]
+        if vi.get("m") is None or "why" in vi:
+            key = "rejected:%s:%s:%s" % (dest, fmt, canon(rec["s"], rec["g"], rec["c"], vi.get("i") or UNSET, vi.get("m")))
+            v.violation(key, {"config": plan.text, "argv": plan.argv(FILE_NAMES[fmt]), "inline": plan.inline},
+                        "configuration not accepted (%s): %s" % (via, vi.get("why")))
+            return
+        design = "imp" in vi and vi.get("got") == vi.get("imp")
+        mk = (rec_key(rec["s"], rec["g"], rec["c"]), vi["i"], vi["m"], "*" if design else dest)
+        if mk not in memo:
+            mini = miniB if rec_key(rec["s"], rec["g"], rec["c"]) in indexB else minis[len(rec["doc"])]
+            if design or budget[0] > 0:
+                if not design:
+                    budget[0] -= 1
+                memo[mk] = mini.minimise(rec, vi["i"], vi["m"], om, design)
+            else:
+                skipped[0] += 1
+                return
+        key, detail = memo[mk]
+        if not key:
+            kind = "design" if design else "code:" + dest
+            key = "%s:%s:%s:%s" % (kind, via, fmt, canon(rec["s"], rec["g"], rec["c"], vi["i"], vi["m"]))
+            detail = {"got": vi.get("got"), "doc": vi.get("doc"), "imp": vi.get("imp"), "config": plan.text,
+                      "argv": plan.argv(FILE_NAMES[fmt]), "inline": plan.inline[vi["i"]]}
+        reported[key] = reported.get(key, 0) + 1
+        v.violation(key, dict(detail, module=vi["m"], option=dest, seen_via=via, original={"config": plan.text, "fmt": fmt}),
+                    "module %s: option %s is %r, the documented precedence gives %r (model of the code: %r); minimal configuration:\n%s%s"
+                    % (vi["m"], detail.get("option_in_minimal_configuration", dest), detail.get("got"), detail.get("doc"),
+                       detail.get("imp"), detail.get("config", ""),
+                       ("command line: %s\n" % detail.get("argv")) if detail.get("argv") else ""))
+
+    for ridx, dest, fmt, salt, r in sorted(bad, key=lambda b: (b[0], b[1], b[2], b[3])):
+        drift += ["cfg %d (%s,%s): %s" % (ridx, dest, fmt, d) for d in r["drift"][:3]]
+        it = rec_of[(ridx, dest, fmt, salt)]
         rec, om = it[1], it[2]
         if r["complaint"]:
-            complaints.append("cfg %d (%s,%s): %s" % (idx, dest, fmt, r["complaint"][:300]))
-            key = "complaint:%s:%s" % (dest, re.sub(r"[^A-Za-z ]+", " ", r["complaint"])[:80].strip())
-            v.violation(key, {"config": Plan(rec, om, fmt, salt).text, "argv": Plan(rec, om, fmt, salt).argv(FILE_NAMES[fmt])},
+            complaints.append("cfg %d (%s,%s): %s" % (ridx, dest, fmt, r["complaint"][:300]))
+            msg = re.sub(r"^.*?: \[", "[", r["complaint"].splitlines()[0])
+            plan = Plan(rec, om, fmt, salt)
+            v.violation("complaint:%s:%s" % (dest, msg[:120]),
+                        {"config": plan.text, "argv": plan.argv(FILE_NAMES[fmt])},
                         "a documented spelling was not accepted silently: " + r["complaint"][:300])
         for vi in r["viol"]:
-            n_disagree += 1
-            plan = Plan(rec, om, fmt, salt)
-            if vi.get("m") is None or "why" in vi:
-                key = "rejected:%s:%s:%s" % (dest, fmt, canon(rec["s"], rec["g"], rec["c"], vi.get("i") or UNSET, vi.get("m")))
-                v.violation(key, {"config": plan.text, "argv": plan.argv(FILE_NAMES[fmt]), "inline": plan.inline},
-                            "configuration not accepted: %s" % vi.get("why"))
-                continue
-            key, detail = ("", {})
-            if len(rec["doc"]) == 3:
-                ck = (json.dumps(rec["s"]), rec["g"], rec["c"], vi["i"], vi["m"], dest)
-                key, detail = mini.minimise(rec, vi["i"], vi["m"], om)
-            if not key:
-                kind = "design" if vi["got"] == vi["imp"] else "code:" + dest
-                key = kind + ":" + fmt + ":" + canon(rec["s"], rec["g"], rec["c"], vi["i"], vi["m"])
-                detail = {"got": vi["got"], "doc": vi["doc"], "imp": vi["imp"], "config": plan.text,
-                          "argv": plan.argv(FILE_NAMES[fmt]), "inline": plan.inline[vi["i"]]}
-            reported[key] = reported.get(key, 0) + 1
-            v.violation(key, dict(detail, module=vi["m"], option=dest, original={"config": plan.text, "fmt": fmt}),
-                        "module %s: option %s is %r, the documented precedence gives %r (model of the code: %r)\n%s"
-                        % (vi["m"], dest, detail.get("got"), detail.get("doc"), detail.get("imp"), detail.get("config", "")))
-    for out in bbad + cbad:
-        drift += out.get("drift", [])[:3]
-        it_rec = None
-        for vi in out["viol"]:
-            n_disagree += 1
-            src = btasks if out in bbad else ctasks
-            t = next(t for t in src if t[0] == out["idx"])
-            rec, om, fmt, salt = t[1], t[2], t[3], t[4]
-            plan = Plan(rec, om, fmt, salt)
-            key, detail = ("", {})
-            if vi.get("m") is not None and "why" not in vi:
-                key, detail = mini.minimise(rec, vi["i"], vi["m"], om)
-            if not key:
-                key = "build:%s:%s:%s" % (om["dest"], vi.get("via", vi.get("why", ""))[:40],
-                                          canon(rec["s"], rec["g"], rec["c"], vi.get("i") or UNSET, vi.get("m")))
-                detail = {"got": vi.get("got"), "doc": vi.get("doc"), "config": plan.text, "argv": plan.cmd}
-            reported[key] = reported.get(key, 0) + 1
-            v.violation(key, dict(detail, module=vi.get("m"), option=om["dest"], via=vi.get("via")),
-                        "real %s, module %s: option %s gives %r, documented %r" %
-                        ("build" if out in bbad else "command line", vi.get("m"), om["dest"], vi.get("got"), vi.get("doc")))
+            judge(rec, om, fmt, salt, vi, "options")
+    for outs, tasks, via in ((bbad, btasks, "build"), (cbad, ctasks, "cli")):
+        for out in sorted(outs, key=lambda o: o["idx"]):
+            drift += out.get("drift", [])[:3]
+            t = next(t for t in tasks if t[0] == out["idx"])
+            for vi in out["viol"]:
+                judge(t[1], t[2], t[3], t[4], vi, via + ":" + str(vi.get("via", "")))
     eq_runs = sum(e["runs"] for e in eq) + sum(e["runs"] for e in eqd)
     eq_pairs = sum(e["pairs"] for e in eq)
-    rejected = {e["id"]: e["rejected"] for e in eq if e["rejected"]}
+    not_accepted = {e["id"]: sorted({x[1] for x in e["rejected"]}) for e in eq if e["rejected"]}
     for e in sorted(eq, key=lambda e: e["id"]):
         for d in e["diff"]:
-            key = "equiv:%s:%s~%s:%s" % (e["id"], d["a"][0], d["b"][0], ",".join(sorted(d["diff"])))
-            v.violation(key, d, "setting %s: sources %s and %s give different Options: %s" % (e["id"], d["a"], d["b"], d["diff"]))
-        if len(e["accepted"]) < 2 and e["runs"] >= 2:
-            v.violation("equiv-accept:%s" % e["id"], e, "setting %s is accepted by fewer than two sources: %s" % (e["id"], e["rejected"][:3]))
-    for e in eqd:
+            cls = " | ".join(",".join(c) for c in d["classes"])
+            v.violation("equiv:%s:%s:%s:%s" % (e["id"], d["scope"], ",".join(sorted(d["attrs"])), cls), d,
+                        "setting %s gives different Options depending on the source (%s scope); classes of sources that agree: %s; differing: %s"
+                        % (e["id"], d["scope"], cls, d["attrs"]))
+        for d in e["accept_diff"]:
+            v.violation("equiv-accept:%s:%s:%s" % (e["id"], d["key"], ",".join(d["rejected"])), d,
+                        "setting %s spelled %s is accepted by %s but rejected by %s" % (e["id"], d["key"], d["accepted"], d["rejected"]))
+    for e in sorted(eqd, key=lambda e: e["id"]):
         for d in e["diff"]:
             v.violation("equiv-diag:%s:%s~%s:%s" % (e["id"], d["a"], d["b"], d["scope"]), d,
                         "setting %s: diagnostics differ between sources %s and %s" % (e["id"], d["a"], d["b"]))
+    for e in cw:
+        if len(e["classes"]) > 1:
+            cls = " | ".join(",".join(c) for c in sorted(e["classes"]))
+            v.violation("equiv-cli:%s:%s" % (e["id"], cls), e,
+                        "setting %s: `python -m mypy` reports different diagnostics depending on the source; classes of sources that agree: %s\n%s"
+                        % (e["id"], cls, json.dumps(e["outputs"], indent=1)))
     if drift:
         print("MODEL DRIFT (%d): %s" % (len(drift), drift[:5]), file=sys.stderr)
 
     # ---- 9. evidence
     nontrivial = 0
-    for rec, _ in all_recs:
+    for rec in recs + recs3v + recsB:
         vals = [x[1] for x in rec["s"] if x[1] != UNSET] + [x for x in (rec["g"], rec["c"]) if x != UNSET]
         if len(set(vals)) >= 2:
             nontrivial += 1
-    sample_rec = recs2[len(recs2) // 2]
+    sample_rec = recs[len(recs) // 2]
     sample_plan = Plan(sample_rec, maps["disallow_untyped_defs"], "ini", 1)
     coverage = {
         "states": states, "transitions": transitions,
         "traces_validated_against_impl": replayed + builds + cli_runs,
-        "configurations_emitted": len(all_recs), "configurations_with_4_sections": len(extra),
+        "configurations_emitted": len(recs) + len(recs3v) + len(recsB),
+        "configurations_exhaustive": n_exh, "configurations_with_4_sections": n4,
+        "configurations_3_values": len(recs3v), "configurations_second_alphabet": len(recsB),
         "replays_process_options": replayed, "value_comparisons": evals,
         "real_builds": builds, "real_build_module_comparisons": build_evals,
         "command_line_runs": cli_runs, "command_line_module_comparisons": cli_evals,
-        "equivalence_settings": len(settings), "equivalence_runs": eq_runs, "equivalence_pairs_compared": eq_pairs,
-        "equivalence_spellings_not_accepted": rejected,
-        "equivalence_diagnostic_settings": len(eqd),
+        "equivalence_settings": len(settings), "equivalence_runs": eq_runs, "equivalence_comparisons": eq_pairs,
+        "equivalence_spellings_not_accepted_anywhere": not_accepted,
+        "equivalence_diagnostic_settings": len(eqd), "equivalence_command_line_witnesses": len(cw),
+        "equivalence_command_line_runs": sum(e["runs"] for e in cw),
         "options_rotated": sorted(m["dest"] for m in maps.values()),
         "evaluations": evals + build_evals + cli_evals + eq_pairs,
         "distinct_nontrivial": nontrivial,
-        "disagreements_seen": n_disagree, "disagreement_keys": reported,
-        "model_drift": drift[:20], "complaints": complaints[:20],
+        "disagreements_seen": n_disagree, "disagreement_keys": reported, "disagreements_not_minimised": skipped[0],
+        "model_drift": drift[:20], "model_drift_count": len(drift), "complaints": complaints[:20],
         "rule": "every configuration TLC emits for Config.tla: all ordered selections of <=3 (thorough: <=4; quick: plus a "
-                "TLC -simulate sample of 4) sections from {a, a.b, a.*, a.b.*, *.b, a.*.c}, each section / [mypy] / command "
-                "line unset or one of 2 values (3 values for <=2 sections with follow_imports), x 39 module names x every "
-                "inline choice; each is replayed under a rotating option (every per-module boolean + follow_imports) and "
-                "file format; every option additionally on all <=1-section configurations; non-trivial = at least two "
+                "TLC -simulate sample of 4) sections from {a, a.b, a.*, a.b.*, *.b, a.*.b}, each section / [mypy] / command "
+                "line unset or one of 2 values (3 values for <=2 sections, follow_imports), x 39 module names (all without "
+                "inline comment, 6 rotating with each inline choice); replayed under a rotating option (every per-module "
+                "boolean + follow_imports) and file format; every option additionally on all <=1-section configurations; "
+                "thorough: a second pattern alphabet. distinct_nontrivial = emitted configurations in which at least two "
                 "sources give different values",
         "samples": [{"model_record": sample_rec, "config_file": sample_plan.text, "argv": sample_plan.argv("mypy.ini"),
                      "inline": sample_plan.inline}],
@@ -1151,6 +1346,8 @@ def main(argv: list[str]) -> int:
         "a bare [mypy-*] section is outside the model (the documentation does not define it)",
         "list-valued options (always_true, enable/disable_error_code ...) accumulate rather than override and are "
         "covered by source equivalence only, not by precedence",
+        "options whose value process_options derives from another option are not used as the observed option: "
+        + ", ".join(sorted(COUPLED)),
         "A-fixtures: in-process builds use the test fixtures' typeshed; a sample goes through `python -m mypy` with the real one",
     ])
 
